@@ -91,6 +91,12 @@ def r1(run, db):
         run.check(same and se is not None and all_paths_from_edge_pass(hf, se, [uc.site]), "supervisor->unlink", "whenever a supervisor is set, cleanup unlinks from it", "cleanup can skip unlink although a supervisor is set", uc.where())
         okarg = same and any(r["k"] == "call" and r["call"].bb == tc.bb for r in hf.origins(uc.args[1]))
         run.check(okarg, "unlink-current", "unlink is given the supervisor just read", None, uc.where())
+    # the supervisor that is unlinked must be read *after* terminate(): take_children() inside it takes the tree lock and is
+    # the barrier after which no link()/relink can change this actor's supervisor any more (they see Stopping and refuse).
+    # A snapshot taken earlier can be stale: the child is then Stopped while still in its new supervisor's child set.
+    for o, c in tgs:
+        run.check(cl.dominates(t, o) and o != t, "supervisor-read-after-terminate", "the supervisor to unlink from is read after terminate() (after the tree-lock barrier)",
+                  "cleanup reads the supervisor before terminate(): a relink that completes in between leaves the stopped actor in its new supervisor's child set, still naming it", c.where())
     if notify and unlink:
         run.check(helper_order(notify[0], unlink[0]), "notify-before-unlink", "the supervisor is notified before the child unlinks from it",
                   "unlink can precede the supervisor notification (the event would find no supervisor)", cl.where())
